@@ -833,4 +833,165 @@ Proof.
   rewrite E1, E2. cbn. split; [reflexivity|]. eexists. split; [left; reflexivity|reflexivity].
 Qed.
 
+
+(* ================= C03 (sender): an active transaction is never stuck ================= *)
+Definition ack_run (s : sstate) : bool := negb (c_paused (t_ack (s_timer s))).
+Definition inact_run (s : sstate) : bool := negb (c_paused (t_inact (s_timer s))).
+Definition alive (s : sstate) : bool :=
+  match s_phase s with
+  | SendMetadata | SendData | SFinished => true
+  | SendEof => eof_flag s || negb (is_nil (s_naks s)) || ack_run s || inact_run s
+  | SCancelled => eof_flag s || ack_run s || inact_run s
+  end.
+Definition SL (s : sstate) : Prop :=
+  (s_phase s = SFinished -> s_state s <> TTerminated -> is_some (s_ack s) = true) /\
+  (s_state s = TActive -> alive s = true) /\
+  (s_state s = TActive -> s_phase s = SCancelled -> inact_run s = true).
+
+Lemma SL_ext (s s' : sstate) : SL s -> s_state s' = s_state s -> s_phase s' = s_phase s -> s_eof s' = s_eof s ->
+  s_timer s' = s_timer s -> s_ack s' = s_ack s -> s_naks s' = s_naks s -> SL s'.
+Proof.
+  unfold SL, alive, eof_flag, ack_run, inact_run. intros (A & B & C) E1 E2 E3 E4 E5 E6.
+  rewrite E1, E2, E3, E4, E5, E6. auto.
+Qed.
+Lemma SL_dead (s' : sstate) : s_state s' = TTerminated -> SL s'.
+Proof. unfold SL. intros H. rewrite H. splits; [intros _ Hn; congruence|discriminate|discriminate]. Qed.
+Lemma SL_susp (s s' : sstate) : SL s -> s_state s' = TSuspended -> s_phase s' = s_phase s -> s_ack s' = s_ack s ->
+  s_state s <> TTerminated -> SL s'.
+Proof.
+  unfold SL. intros (A & _) E1 E2 E3 Hn. rewrite E1, E2, E3.
+  splits; [intros Hp _; apply A; assumption|discriminate|discriminate].
+Qed.
+Lemma SL_alive (s' : sstate) : (s_phase s' = SFinished -> is_some (s_ack s') = true) -> alive s' = true ->
+  (s_phase s' = SCancelled -> inact_run s' = true) -> SL s'.
+Proof. unfold SL. intros A B C. splits; [intros Hp _; apply A; exact Hp|intros _; exact B|intros _; exact C]. Qed.
+(* SL is monotone in what keeps the transaction alive *)
+Lemma SL_mono (s s' : sstate) : SL s -> s_state s' = s_state s -> s_phase s' = s_phase s -> s_ack s' = s_ack s ->
+  (eof_flag s = true -> eof_flag s' = true) -> (is_nil (s_naks s) = false -> is_nil (s_naks s') = false) ->
+  (ack_run s = true -> ack_run s' = true) -> (inact_run s = true -> inact_run s' = true) -> SL s'.
+Proof.
+  unfold SL, alive. intros (A & B & C) E1 E2 E3 M1 M2 M3 M4. rewrite E1, E2, E3. splits; auto.
+  intros Ha. specialize (B Ha). destruct (s_phase s); auto.
+  - apply orb_true_iff in B as [B|B]; [|rewrite (M4 B), !orb_true_r; reflexivity].
+    apply orb_true_iff in B as [B|B]; [|rewrite (M3 B), !orb_true_r; reflexivity].
+    apply orb_true_iff in B as [B|B]; [rewrite (M1 B); reflexivity|].
+    apply negb_true_iff in B. rewrite (M2 B). cbn. rewrite !orb_true_r. reflexivity.
+  - apply orb_true_iff in B as [B|B]; [|rewrite (M4 B), !orb_true_r; reflexivity].
+    apply orb_true_iff in B as [B|B]; [rewrite (M1 B); reflexivity|rewrite (M3 B), !orb_true_r; reflexivity].
+Qed.
+Ltac sl_leaf :=
+  lazymatch goal with
+  | |- SL ?t => let b := strip_s t in eapply (SL_ext b); [ | reflexivity ..]
+  end.
+
+Lemma run_update now c : negb (c_paused (c_update now c)) = negb (c_paused c).
+Proof. rewrite c_update_paused_eq. reflexivity. Qed.
+Lemma prepare_eof_flag fl s : eof_flag (prepare_eof fl s) = true.
+Proof.
+  unfold Send.prepare_eof, Send.get_checksum, eof_flag.
+  destruct (s_cksum s); [reflexivity|]. destruct (s_is_file_transfer s); [destruct (md_ck (s_meta s))|]; reflexivity.
+Qed.
+Lemma prepare_eof_timer fl s : s_timer (prepare_eof fl s) = s_timer s.
+Proof.
+  unfold Send.prepare_eof, Send.get_checksum.
+  destruct (s_cksum s); [reflexivity|]. destruct (s_is_file_transfer s); [destruct (md_ck (s_meta s))|]; reflexivity.
+Qed.
+Lemma eof_flag_set_true s : eof_flag s = true -> eof_flag (set_eof_flag true s) = true.
+Proof. unfold eof_flag, set_eof_flag. destruct (s_eof s) as [[e [|]]|]; intros H; try discriminate; reflexivity. Qed.
+Lemma set_eof_flag_fields b s : s_state (set_eof_flag b s) = s_state s /\ s_phase (set_eof_flag b s) = s_phase s /\
+  s_ack (set_eof_flag b s) = s_ack s /\ s_naks (set_eof_flag b s) = s_naks s /\ s_timer (set_eof_flag b s) = s_timer s.
+Proof. unfold set_eof_flag. destruct (s_eof s) as [[e f]|]; cbn; auto. Qed.
+
+Lemma SL_shutdown now s : SL (s_shutdown now s).
+Proof. apply SL_dead. reflexivity. Qed.
+Lemma SL_abandon now s : SL (s_abandon now s).
+Proof. unfold s_abandon. apply SL_shutdown. Qed.
+Lemma SL_suspend now s : SL s -> s_state s <> TTerminated -> SL (s_suspend now s).
+Proof. intros H Hl. eapply (SL_susp s); [exact H | reflexivity | reflexivity | reflexivity | exact Hl]. Qed.
+Lemma SL_resume now s : SL s -> s_state s <> TTerminated -> SL (s_resume now s).
+Proof.
+  intros (A & B & C) Hl.
+  assert (E1 : s_phase (s_resume now s) = s_phase s) by (unfold s_resume; destruct (s_phase s) eqn:Ep; cbn; rewrite ?Ep; reflexivity).
+  assert (E2 : s_ack (s_resume now s) = s_ack s) by (unfold s_resume; destruct (s_phase s) eqn:Ep; cbn; reflexivity).
+  apply SL_alive.
+  - rewrite E1, E2. intros Hp. apply A; assumption.
+  - unfold alive. rewrite E1. unfold s_resume, ack_run, inact_run, eof_flag.
+    destruct (s_phase s) eqn:Ep; cbn; rewrite ?orb_true_r; reflexivity.
+  - rewrite E1. intros Ep. unfold s_resume, inact_run. rewrite Ep. reflexivity.
+Qed.
+Lemma SL_set_eof_true s : SL s -> SL (set_eof_flag true s).
+Proof.
+  intros H. destruct (set_eof_flag_fields true s) as (A & B & C & D & E).
+  eapply (SL_mono s); [exact H | exact A | exact B | exact C | | rewrite D; auto | | ].
+  - apply eof_flag_set_true.
+  - unfold ack_run. rewrite E. auto.
+  - unfold inact_run. rewrite E. auto.
+Qed.
+Lemma SL_cancel_ now c s : SL (s_cancel_ now c s).
+Proof.
+  unfold Send.s_cancel_.
+  set (x := set_s_phase SCancelled (set_s_cond c (supd_inact (c_restart now) s))).
+  destruct (prepare_eof_fields (Some (cfg_src (s_cfg x))) x) as (_ & _ & _ & _ & E & _).
+  pose proof (prepare_eof_timer (Some (cfg_src (s_cfg x))) x) as T.
+  pose proof (prepare_eof_flag (Some (cfg_src (s_cfg x))) x) as F.
+  apply SL_alive.
+  - rewrite E. cbn. discriminate.
+  - unfold alive. rewrite E. cbn [s_phase x set_s_phase]. rewrite F. reflexivity.
+  - intros _. unfold inact_run. rewrite T. reflexivity.
+Qed.
+Lemma SL_handle_fault now c s : SL s -> s_state s <> TTerminated -> SL (s_handle_fault now c s).
+Proof.
+  intros H Hl. unfold Send.s_handle_fault.
+  assert (H1 : SL (semit_ind (IFault c (s_sent (set_s_cond c s))) (set_s_cond c s))) by (sl_leaf; exact H).
+  destruct (handler _ c); [apply SL_cancel_ | apply SL_suspend; [exact H1|exact Hl] | exact H1 | apply SL_abandon].
+Qed.
+
+Lemma SL_ht_ack_eof now s : SL s -> s_state s <> TTerminated -> SL (ht_ack_eof cksum now s).
+Proof.
+  intros H Hl. unfold ht_ack_eof, c_timeout_occurred. cbn [fst snd].
+  set (s3 := supd_ack (fun _ => c_update now (t_ack (s_timer s))) s).
+  assert (H3 : SL s3).
+  { eapply (SL_mono s); [exact H | reflexivity | reflexivity | reflexivity | auto | auto | | auto].
+    unfold ack_run, s3. cbn. rewrite run_update. auto. }
+  assert (Hl3 : s_state s3 <> TTerminated) by exact Hl. clearbody s3.
+  destruct (c_occurred (c_update now (t_ack (s_timer s)))); [|exact H3].
+  destruct (c_count (c_update now (t_ack (s_timer s))) =? c_max (c_update now (t_ack (s_timer s))));
+    [apply SL_handle_fault; assumption | apply SL_set_eof_true; exact H3].
+Qed.
+
+Lemma SL_handle_timeout now s : SL s -> s_state s <> TTerminated -> SL (s_handle_timeout now s).
+Proof.
+  intros H Hl. unfold Send.s_handle_timeout, c_limit_reached.
+  destruct (s_phase s) eqn:Ep; try exact H; cbn [fst snd].
+  - set (s1 := supd_inact (fun _ => c_update now (t_inact (s_timer s))) s).
+    assert (H1 : SL s1).
+    { eapply (SL_mono s); [exact H | reflexivity | reflexivity | reflexivity | auto | auto | auto |].
+      unfold inact_run, s1. cbn. rewrite run_update. auto. }
+    assert (Hl1 : s_state s1 <> TTerminated) by exact Hl. clearbody s1.
+    destruct (c_count (c_update now (t_inact (s_timer s))) =? c_max (c_update now (t_inact (s_timer s)))); cbn [andb].
+    + pose proof (SL_handle_fault now InactivityDetected s1 H1 Hl1) as H2.
+      destruct (negb (sphase_eqb (s_phase (s_handle_fault now InactivityDetected s1)) SendEof)
+                || negb (tstate_eqb (s_state (s_handle_fault now InactivityDetected s1)) TActive)) eqn:Eg; [exact H2|].
+      apply SL_ht_ack_eof; [exact H2|].
+      apply orb_false_iff in Eg as (_ & Eg). apply negb_false_iff in Eg.
+      destruct (s_state (s_handle_fault now InactivityDetected s1)); cbn in Eg; congruence.
+    + apply SL_ht_ack_eof; assumption.
+  - set (s1 := supd_inact (fun _ => c_update now (t_inact (s_timer s))) s).
+    assert (H1 : SL s1).
+    { eapply (SL_mono s); [exact H | reflexivity | reflexivity | reflexivity | auto | auto | auto |].
+      unfold inact_run, s1. cbn. rewrite run_update. auto. }
+    clearbody s1.
+    destruct (c_count (c_update now (t_inact (s_timer s))) =? c_max (c_update now (t_inact (s_timer s))));
+      [apply SL_abandon|].
+    unfold c_timeout_occurred. cbn [fst snd].
+    set (s3 := supd_ack (fun _ => c_update now (t_ack (s_timer s1))) s1).
+    assert (H3 : SL s3).
+    { eapply (SL_mono s1); [exact H1 | reflexivity | reflexivity | reflexivity | auto | auto | | auto].
+      unfold ack_run, s3. cbn. rewrite run_update. auto. }
+    clearbody s3.
+    destruct (c_occurred (c_update now (t_ack (s_timer s1)))); [|exact H3].
+    destruct (c_count (c_update now (t_ack (s_timer s1))) =? c_max (c_update now (t_ack (s_timer s1))));
+      [apply SL_abandon | apply SL_set_eof_true; exact H3].
+Qed.
+
 End SendP.
